@@ -328,7 +328,7 @@ func schedVerdicts(res *core.Result, prop string, s *sched.Sched, races []raceRe
 		res.Violate(prop, "deadlock", "no task can run: "+s.Deadlock, map[string]interface{}{"schedule_tail": s.Trace(60)})
 	}
 	if s.Runaway {
-		res.Violate(prop, "runaway", fmt.Sprintf("step budget of %d scheduling points exhausted (livelock?)", s.Cfg.MaxSteps),
+		res.Violate(prop, "runaway", fmt.Sprintf("step budget exhausted: %d scheduling points, or a million watched accesses by one task without reaching one (livelock, or work that grows without bound?)", s.Cfg.MaxSteps),
 			map[string]interface{}{"schedule_tail": s.Trace(60)})
 	}
 	for _, t := range s.Tasks() {
